@@ -95,8 +95,12 @@ func TestCheck(t *testing.T) {
 	r.Require("crafted_locks_judged", int64(nCrafted*10))
 	r.Require("crafted_rehashed-and-resigned_signatures", int64(nCrafted*3))
 
-	r.Cases(nCLI+nDefFile+nTamper+nRound+nCrafted, 0, func(c *kit.Case) {
+	nPartial := r.N(48, 480)
+	r.Require("partially_signed_definitions_judged", int64(nPartial/3))
+	r.Cases(nCLI+nDefFile+nTamper+nRound+nCrafted+nPartial, 0, func(c *kit.Case) {
 		switch i := c.Idx - nDefFile; {
+		case c.Idx >= nCLI+nDefFile+nTamper+nRound+nCrafted:
+			runPartiallySignedCase(c, c.Idx-(nCLI+nDefFile+nTamper+nRound+nCrafted))
 		case c.Idx >= nCLI+nDefFile+nTamper+nRound:
 			runCraftedSharesCase(c, c.Idx-(nCLI+nDefFile+nTamper+nRound))
 		case c.Idx < nCLI:
